@@ -293,11 +293,17 @@ func (o *offsetDB) save(jobs map[pipeline.SourceID]*Job, mu *sync.RWMutex) {
 	_, err = file.Write(o.buf)
 	if err != nil {
 		logger.Errorf("can't write offsets file %s, %s", o.tmpOffsetsFile, err.Error())
+		// a partial snapshot must not replace the good offsets file
+		_ = os.Remove(string(tmpWithRandom))
+		return
 	}
 
 	err = file.Sync()
 	if err != nil {
 		logger.Errorf("can't sync offsets file %s, %s", o.tmpOffsetsFile, err.Error())
+		// a snapshot that is not durable must not replace the good offsets file
+		_ = os.Remove(string(tmpWithRandom))
+		return
 	}
 
 	err = os.Rename(string(tmpWithRandom), o.curOffsetsFile)
